@@ -62,20 +62,20 @@ UNIT = {
               'ValueType': 'vbytes', 'std::vector<uint8_t>': 'vbytes', 'Epoch': 'uint64_t', 'std::mutex': 'verif_mutex', 'mutex': 'verif_mutex',
               'basic::Clock::Timestamp': 'double', 'Clock::Timestamp': 'double', 'sqlite3_stmt': 'struct sqlite3_stmt', 'sqlite3': 'struct sqlite3',
               'basic::BinaryDecoder': 'struct bdec', 'BinaryDecoder': 'struct bdec', 'basic::BinaryEncoder': 'struct benc', 'BinaryEncoder': 'struct benc', 'Twine': 'const char *'},
-    'type_patterns': [(r'vector<(unsigned char|uint8_t)(, allocator<(unsigned char|uint8_t)>)?\s*>', 'vbytes'),
+    'type_patterns': [(r'(llvm::)?DenseSet<(SQLiteBuildDB::)?DBKeyID.*>', 'struct dbidset'), (r'(std::)?pair<.*DenseSet.*DBKeyID.*, bool>', 'struct dbidins'), (r'(std::)?pair<.*DenseSetImpl.*, bool>', 'struct dbidins'), (r'vector<(unsigned char|uint8_t)(, allocator<(unsigned char|uint8_t)>)?\s*>', 'vbytes'),
                       (r'pair<KeyID, .*DBKeyID>', 'struct kv_kd'), (r'pair<DBKeyID, .*KeyID>', 'struct kv_dk'),
                       (r'(detail::)?DenseMapPair<KeyID, .*DBKeyID>', 'struct kv_kd'), (r'(detail::)?DenseMapPair<.*DBKeyID, .*KeyID>', 'struct kv_dk'),
                       (r'DenseMapIterator<KeyID, .*', 'struct kv_kd *'), (r'DenseMapIterator<.*DBKeyID, .*', 'struct kv_dk *'),
                       (r'DenseMap<KeyID, .*>::iterator', 'struct kv_kd *'), (r'DenseMap<.*DBKeyID, .*>::iterator', 'struct kv_dk *'),
                       (r'DenseMap<KeyID, .*', 'struct map_kd'), (r'DenseMap<.*DBKeyID, .*', 'struct map_dk')],
-    'by_value': ['struct KeyIDAndFlags', 'struct KeyID', 'vbytes', 'struct CommandSignature', 'strref', 'struct SQLiteBuildDB_DBKeyID', 'struct DBKeyID'],
+    'by_value': ['struct dbidins', 'struct KeyIDAndFlags', 'struct KeyID', 'vbytes', 'struct CommandSignature', 'strref', 'struct SQLiteBuildDB_DBKeyID', 'struct DBKeyID'],
     'by_pointer': ['vstr', 'keyt'],
-    'predefined_structs': ['DBKeyID', 'KeyID', 'KeyIDAndFlags', 'DependencyKeyIDs', 'CommandSignature', 'bdec', 'benc', 'map_kd', 'map_dk', 'kv_kd', 'kv_dk', 'sqlite3_stmt', 'sqlite3'],
+    'predefined_structs': ['dbidset', 'dbidins', 'DBKeyID', 'KeyID', 'KeyIDAndFlags', 'DependencyKeyIDs', 'CommandSignature', 'bdec', 'benc', 'map_kd', 'map_dk', 'kv_kd', 'kv_dk', 'sqlite3_stmt', 'sqlite3'],
     'no_translate': ['open', 'getCurrentErrorMessage'],
     'range_by_value': True,
     'drop_if_mentions': [],
     'calls': {
-        'fn:memcpy': 'verif_memcpy_rec', 'fn:move': '$0', 'm:SQLiteBuildDB::getKeyIDForID': 'verif_getKeyIDForID_abs', 'm:SQLiteBuildDB::getCurrentErrorMessage': 'vstr_errmsg',
+        'fn:memcpy': 'verif_memcpy_rec', 'fn:move': '$0', 'm:@struct dbidset::insert': ('dbidset_insert', 'v'), 'm:SQLiteBuildDB::getKeyIDForID': 'verif_getKeyIDForID_abs', 'm:SQLiteBuildDB::getCurrentErrorMessage': 'vstr_errmsg',
         'm:@vbytes::resize': 'vbytes_resize', 'm:@vbytes::data': 'vbytes_data',
         'm:DependencyKeyIDs::resize': 'DependencyKeyIDs_resize', 'm:DependencyKeyIDs::set': ('DependencyKeyIDs_set', 'vvvv'),
         'm:@struct map_kd::find': ('map_kd_find', 'v'), 'm:@struct map_kd::end': 'map_kd_end',
